@@ -23,7 +23,7 @@ TRUSTED = [
     "asyncio.wait({t}, timeout): resumes when t is done or on timeout; `done` reflects t's status at resume; asyncio.wait(tasks, timeout=T): resumes when all are done, or after T if T is not None",
     "task.add_done_callback(cb): cb runs atomically once after the task ended, for every way it can end (return, exception, cancellation)",
     "anyio task group: the `async with` block exits when both children have returned",
-    "broker.listen() yields each taken message once and raises nothing but StopAsyncIteration; CancelledError (external cancellation of listen()) is outside the graceful-stop properties: those handler edges are not explored",
+    "broker.listen() yields each taken message once and raises nothing but StopAsyncIteration (stream end: explored); CancelledError (external cancellation of listen()) is raised by no contract: that handler edge is not explored",
     "callback()/run_task() never touch self.sem, self.sem_prefetch or the queue (frame obligations of units u_callback/u_run_task)",
 ]
 SENT = -1
@@ -50,7 +50,7 @@ def generate(src):
         c['queue'] = And(0 <= g['head'], g['head'] <= g['tail'], g['tail'] == g['enq'] + b2i(g['qdone']), g['enq'] >= 0)
         c['identity_queue'] = ForAll([j_], Implies(And(0 <= j_, j_ < g['enq']), g['hist'][j_] == j_))
         c['sentinel_last'] = Implies(g['qdone'], g['hist'][g['enq']] == SENT)
-        c['taken'] = And(g['taken'] == g['enq'] + b2i(g['la'] == 2), Implies(g['la'] == 2, g['la_msg'] == g['enq']), g['la'] >= 0, g['la'] <= 2)
+        c['taken'] = And(g['taken'] == g['enq'] + b2i(g['la'] == 2), Implies(g['la'] == 2, g['la_msg'] == g['enq']), g['la'] >= 0, g['la'] <= 3)
         c['started'] = And(g['started'] == g['head'] - b2i(pR >= 3), g['started'] >= 0, g['done_cb'] >= 0, g['done_cb'] <= g['started'])
         c['identity_callbacks'] = ForAll([k_], Implies(And(0 <= k_, k_ < g['started']), g['cb_msg'][k_] == k_))
         c['fetched'] = g['fetched'] == g['enq']
@@ -160,7 +160,7 @@ def generate(src):
             if not (args and args[0] == 'SET_LA'): raise Unsupported("prefetcher waits on something other than {current_message}")
             to = kw.get('timeout')
             oblige(st, "prefetcher/poll: the wait for the look-ahead has a finite timeout (so the stop event is polled)  [C05]", BoolVal(to is not None and not (is_expr(to) and False)), props=['C05'])
-            return k(st, Tok(lambda s, k2, K2: ex.suspend(s, 'asyncio.wait', lambda x: BoolVal(True), lambda x: None, lambda x: k2(x, PyTuple([PyBool(G(x)['la'] == 2), None])))))
+            return k(st, Tok(lambda s, k2, K2: ex.suspend(s, 'asyncio.wait', lambda x: BoolVal(True), lambda x: None, lambda x: k2(x, PyTuple([PyBool(Or(G(x)['la'] == 2, G(x)['la'] == 3)), None])))))
         tk = [x for x in e.keywords if x.arg == 'timeout']
         oblige(st, "runner/drain: waits for the live callback tasks with timeout=self.wait_tasks_timeout  [C05]",
                BoolVal(bool(tk) and ast.unparse(tk[0].value) == 'self.wait_tasks_timeout' and len(e.args) == 1 and ast.unparse(e.args[0]) == 'tasks'), props=['C05'])
@@ -172,8 +172,11 @@ def generate(src):
         return k(st, Tok(lambda s, k2, K2: ex.suspend(s, 'asyncio.wait', guard, lambda x: None, lambda x: k2(x, PyTuple([fresh('done_set'), fresh('pending_set')])))))
     def h_result(ex, st, e, recv, args, kw, k, K):
         g = G(st)
-        oblige(st, "prefetcher/pre@current_message.result(): the look-ahead task is done  [C01]", g['la'] == 2, props=['C01'], witness=wit(g), replay=RP)
-        st.pc.append(g['la'] == 2); setG(st, la=IntVal(0)); return k(st, PyInt(g['la_msg']))
+        oblige(st, "prefetcher/pre@current_message.result(): the look-ahead task is done  [C01]", Or(g['la'] == 2, g['la'] == 3), props=['C01'], witness=wit(g), replay=RP)
+        ok = st.fork(); ok.pc.append(g['la'] == 2)
+        if ex.feasible(ok): setG(ok, la=IntVal(0)); k(ok, PyInt(g['la_msg']))
+        end = st.fork(); end.pc.append(g['la'] == 3)          # the broker's listen() stream ended: Task.result() re-raises StopAsyncIteration
+        if ex.feasible(end): K['exc'](end, new_exc(end, 'StopAsyncIteration'))
     def h_cancel(ex, st, e, recv, args, kw, k, K): g = G(st); setG(st, la=If(g['la'] == 1, 0, g['la'])); return k(st, None)
     def h_put(ex, st, e, recv, args, kw, k, K):
         v = args[0]
@@ -238,13 +241,9 @@ def generate(src):
                 return h_nested
             return super().find_handler(name, recv)
         def _st_Try_raw(self, s, st, k, K):
-            for h in (s.handlers if self.thread != 'E' else []):
-                names = [ast.unparse(x) for x in (h.type.elts if isinstance(h.type, ast.Tuple) else [h.type])] if h.type is not None else ['<bare>']
-                if not set(names) <= {'asyncio.CancelledError', 'StopAsyncIteration'}: raise Unsupported("receiver loop handler for " + ", ".join(names))
-                if [type(x) for x in h.body] != [ast.Break]: raise Unsupported("receiver loop handler body is not `break`")
-            if self.thread == 'E': return Exec._st_Try_raw(self, s, st, k, K)
-            if s.finalbody or s.orelse: raise Unsupported("try/finally in the receiver loop")
-            return self.block(s.body, st, k, K)      # CancelledError / StopAsyncIteration edges: outside the graceful-stop properties (TRUSTED)
+            # exception edges are explored through the class lattice: StopAsyncIteration (stream end) is raised by the result() contract;
+            # CancelledError (external cancellation of listen()) is raised by no contract here: outside the graceful-stop properties (TRUSTED)
+            return Exec._st_Try_raw(self, s, st, k, K)
         def st_AugAssign(self, s, st, k, K):
             def done(s2):
                 if ast.unparse(s.target) == 'fetched_tasks': setG(s2, fetched=self.as_int(s2.env['fetched_tasks']))
@@ -318,7 +317,8 @@ def generate(src):
         ex = Ex(thread, H); f = FN[fname]
         st = State(); st.ghost = init_ghost(); st.env = {'self': PyObj(Int('self_a')), 'queue': 'QUEUE', 'finish_event': 'EVENT'}
         ex.cur_from = 'entry'; ex.cur_pre = None
-        ex.block(f.body, st, ex.finish, {'ret': lambda s, v: ex.finish(s)})
+        def escapes(s, x): oblige(s, f"{fname}/raises: no exception escapes the coroutine (a stream end must still hand over the sentinel; an escaping error would tear down listen())  [C01/C05]", BoolVal(False), props=['C01', 'C05'], witness=wit(G(s)), replay=RP)
+        ex.block(f.body, st, ex.finish, {'ret': lambda s, v: ex.finish(s), 'exc': escapes})
         done = set()
         while True:
             todo = [kk for kk in conts if kk[0] == thread and kk not in done]
@@ -337,9 +337,10 @@ def generate(src):
     # environment actions; task_cb's REAL body is executed for the done-callback
     def env_actions():
         out = []
-        for name in ('deliver', 'stop', 'timer', 'callback_done'):
+        for name in ('deliver', 'stream_end', 'stop', 'timer', 'callback_done'):
             pre = symstate('_e' + name); post = dict(pre); pc = []
             if name == 'deliver': pc = [pre['la'] == 1]; post.update(la=IntVal(2), la_msg=pre['taken'], taken=pre['taken'] + 1, extra=pre['extra'] + b2i(pre['fin']))
+            if name == 'stream_end': pc = [pre['la'] == 1]; post.update(la=IntVal(3))          # broker.listen() finished: the pending __anext__ ends with StopAsyncIteration, no message taken
             if name == 'stop': post['fin'] = BoolVal(True)
             if name == 'timer': post['tmo'] = BoolVal(True)
             if name == 'callback_done':
